@@ -292,7 +292,7 @@ def run():
                 rule='one case = one call of remap (default callbacks or one of 8 visit programs) or research+get_path on one '
                      'structure; non-trivial = the structure has at least two container nodes',
                 bounds=dict(quick='all structures with <= 4 container nodes over dict/list/tuple/set/frozenset and <= 4 item slots in '
-                                  'total (<= 3 per node), leaves {0,"x",None}, every aliasing pattern (a slot is a leaf, any existing node '
+                                  'total (<= 3 per node), leaves {0,"x",None} (+ a pass over <= 3 nodes / <= 3 slots with leaves {b"\\x00a", b"", "xy", True, 1.5}), every aliasing pattern (a slot is a leaf, any existing node '
                                   'incl. an enclosing one, or a fresh node), dict keys "a",0,None by position; x (default callbacks + 8 '
                                   'visit programs) + research (default query) with get_path on every reported path',
                             thorough='<= 4 nodes with <= 5 slots in total, <= 5 nodes with <= 4 slots, and 5 nodes with 5 slots (<= 2 per node, no leaves); research also with a leaves-only query'))
@@ -339,6 +339,31 @@ def run():
         else:
             continue
         break
+    # second pass, small envelope: other scalar leaves that must never be traversed (bytes incl. a zero byte and empty, a
+    # multi-character string, a bool, a float) - a leaf is whatever is not a dict/list/tuple/set/frozenset
+    global LEAVES
+    saved = LEAVES
+    LEAVES = (b'\x00a', b'', 'xy', True, 1.5)
+    try:
+        n_alt = 0
+        for spec in gen_specs(3, 2, 2, 3):
+            if not any(s[0] == 'L' for _, sl in spec for s in sl):
+                continue
+            root = build(spec)
+            if root is None:
+                continue
+            n_alt += 1
+            signal.setitimer(signal.ITIMER_VIRTUAL, 1.0)
+            try:
+                check_structure(H, spec, root, 10 ** 6 + n_alt, not T)
+            except Alarm:
+                H.fail('self_referential_terminates', 'remap', shape_class(root), spec_source(spec), 'no result within 1 s of CPU time',
+                       HDR + spec_source(spec) + 'import signal\nsignal.alarm(5)\nremap(root)\nresearch(root)\n')
+            finally:
+                signal.setitimer(signal.ITIMER_VIRTUAL, 0)
+        stats['other_scalar_leaves'] = n_alt
+    finally:
+        LEAVES = saved
     H.parts.update(('structures_' + k, v) for k, v in stats.items())
     H.finish()
 
